@@ -405,6 +405,15 @@ def _neq(k):
     return lambda a: a != k
 
 
+def _sum1_combiner(m, args, runs):
+    """sum of (argument + 1) over the active calls - NOT the identity on a single argument"""
+    w = len(args[0].a) if args else 1
+    result = C(0, w)
+    for i, v in enumerate(args):
+        result = (result + Mux(runs[i], v.a + 1, 0))[:w]
+    return {"a": result}
+
+
 class _Sub(Elaboratable):
     def __init__(self, design: "Design", mod: int):
         self.design = design
@@ -517,7 +526,7 @@ class _Sub(Elaboratable):
                 if b.get("nonex"):
                     kw["nonexclusive"] = True
                     if b.get("iw"):
-                        kw["combiner"] = _or_combiner
+                        kw["combiner"] = _sum1_combiner if b.get("comb") == "sum1" else _or_combiner
                 if b.get("single"):
                     kw["single_caller"] = True
                 if b.get("val") is not None and b.get("iw"):
@@ -603,7 +612,13 @@ class Design(Elaboratable):
             elif rel[0] == "sbr":
                 self.obj[rel[1]].schedule_before(self.obj[rel[2]], ready_dependent=True)
             else:
-                self.obj[rel[1]].add_conflict(self.obj[rel[2]], pr[rel[3]])
+                end = self.obj[rel[2]]
+                if len(rel) > 4 and rel[4] == "A" and self.an.bodies[rel[2]]["kind"] == "M":
+                    # the relation names a forwarding method (Method.like + provide) instead of the method itself
+                    alias = Method.like(end, name=f"relalias_{rel[2]}")
+                    alias.provide(end)
+                    end = alias
+                self.obj[rel[1]].add_conflict(end, pr[rel[3]])
         for b in spec["bodies"]:
             if b.get("rdep"):
                 self.obj[b["rdep"]].schedule_before(self.obj[b["name"]])
@@ -814,9 +829,12 @@ class Oracle:
                 else:
                     exp = 0
                     for s in act:
-                        exp |= an.site_arg(s, ob.val)
+                        if b.get("comb") == "sum1":
+                            exp = (exp + an.site_arg(s, ob.val) + 1) % (1 << b["iw"])
+                        else:
+                            exp |= an.site_arg(s, ob.val)
                     if ob.din[mname] != exp:
-                        return f"nonexclusive method {mname} sees {ob.din[mname]} but OR of active arguments is {exp}; val={ob.val}"
+                        return f"nonexclusive method {mname} sees {ob.din[mname]} but its combiner ({b.get('comb') or 'or'}) over the active arguments gives {exp}; val={ob.val}"
             if b.get("ow"):
                 if ob.run[mname] or not b.get("iw"):
                     exp = (ob.val[f"mo:{mname}"] + (ob.din[mname] if b.get("iw") else 0)) % (1 << b["ow"])
@@ -942,6 +960,7 @@ def gen_spec(
     fsm_rate=1,
     dup_rels=True,
     allow_tops=True,
+    inject_shapes=True,
 ):
     nm = draw(st.integers(1, max_methods))
     nt = draw(st.integers(min_trans, max_trans))
@@ -965,6 +984,7 @@ def gen_spec(
                 mod=draw(st.integers(0, 1)) if two_mods else 0,
                 rdy=draw(st.integers(0, 9)) < 7,
                 nonex=nonex,
+                comb=draw(st.sampled_from(["or", "sum1"])) if (nonex and iw) else None,
                 iw=iw,
                 ow=ow,
                 val=val,
@@ -1037,6 +1057,29 @@ def gen_spec(
     for idx, b in enumerate(bodies):
         allowed = [j for j in range(nm) if (b["kind"] == "T" or (allow_chain and j > idx))]
         b["stmts"] = gen_stmts(idx, 0, allowed, False)
+    if inject_shapes and allow_chain and draw(st.integers(0, 3)) == 0:
+        # shape: an exclusive method X reached directly AND through a nonexclusive wrapper N (N calls X): one
+        # transaction calls N, another calls N in one alternative and X in the other alternative of an If
+        cand = [(i, j) for i in range(nm) for j in range(i + 1, nm) if bodies[i]["nonex"] and not bodies[j]["nonex"]]
+        if cand:
+            i, j = draw(st.sampled_from(cand))
+
+            def mk(idx):
+                cb = bodies[idx]
+                return dict(t="call", callee=cb["name"], en=False, hops=0, via_methods=False,
+                            arg=(draw(st.integers(0, (1 << cb["iw"]) - 1)) if (cb["iw"] and draw(st.booleans())) else None))
+
+            if not any(c["t"] == "call" and c["callee"] == bodies[j]["name"] for c in bodies[i]["stmts"]):
+                bodies[i]["stmts"].append(mk(j))
+            # two fresh transactions carry the shape (call sites added to existing bodies would mostly be removed
+            # again by the repair pass)
+            alts = [[mk(i)], [mk(j)]]
+            if draw(st.booleans()):
+                alts.reverse()
+            mod = bodies[i]["mod"]
+            bodies.append(dict(kind="T", name=f"t{nt}", mod=mod, rdy=draw(st.booleans()), stmts=[mk(i)]))
+            bodies.append(dict(kind="T", name=f"t{nt + 1}", mod=mod, rdy=draw(st.booleans()),
+                               stmts=[dict(t="if", alts=alts, **{"else": draw(st.booleans())})]))
     spec = dict(sched=schedv, bodies=bodies, rels=[], tops=[])
     if allow_tops:
         # bodies defined inside the alternatives of a top-level If/Elif/Else of their module
@@ -1056,6 +1099,7 @@ def gen_spec(
     repair(spec)
     an = analyze(spec)
     top = [b["name"] for b in bodies]
+    bodies_by_name = {b["name"]: b for b in bodies}
     if allow_rels:
         nrel = draw(st.integers(min_rels, 3))
         attempts = 0
@@ -1071,6 +1115,8 @@ def gen_spec(
             if not allow_same_trans_conf and set(an.reaching_transactions(a)) & set(an.reaching_transactions(b2)):
                 continue
             rel = ["sb", a, b2] if kind == "sb" else ["conf", a, b2, p]
+            if kind == "conf" and bodies_by_name[b2]["kind"] == "M" and draw(st.integers(0, 3)) == 0:
+                rel.append("A")
             spec["rels"].append(rel)
             if not relations_ok(spec):
                 spec["rels"].pop()
@@ -1111,6 +1157,68 @@ def gen_spec(
     else:
         spec["nvals"] = nvals
         spec["vals"] = draw(st.lists(st.integers(0, space - 1), min_size=nvals, max_size=nvals))
+    return spec
+
+
+@st.composite
+def gen_conflict_graph_spec(draw, *, sched="eager", max_trans=6, prios=True, same_trans=False):
+    """Relation-heavy designs: 3-6 small transactions (each calling 0-2 of 0-3 exclusive methods) and 2-7
+    add_conflict / schedule_before relations forming hubs, chains and trees, so that conflict components with
+    non-trivial topology (a hub whose neighbours have further neighbours) are common.  All valuations are enumerated."""
+    nt = draw(st.integers(3, max_trans))
+    nm = draw(st.integers(0, 3))
+    bodies = []
+    for i in range(nm):
+        bodies.append(dict(kind="M", name=f"m{i}", mod=0, rdy=draw(st.booleans()), nonex=False, comb=None, iw=0, ow=0,
+                           val=None, single=False, rdep=None, stmts=[]))
+    order = draw(st.permutations(list(range(nt))))  # definition order of the transactions
+    for i in order:
+        calls = sorted(draw(st.sets(st.integers(0, nm - 1), max_size=2))) if nm else []
+        bodies.append(dict(kind="T", name=f"t{i}", mod=0, rdy=True, stmts=[
+            dict(t="call", callee=f"m{c}", en=False, arg=None, hops=0, via_methods=False) for c in calls]))
+    spec = dict(sched=sched, bodies=bodies, rels=[], tops=[])
+    # a spanning tree over a subset of the transactions (hub / chain / mixed), plus extra edges
+    nodes = [f"t{i}" for i in range(nt)]
+    edges = []
+    for k in range(1, nt):
+        if draw(st.integers(0, 5)) == 0:
+            continue  # leave some transactions unrelated
+        parent = draw(st.integers(0, k - 1))
+        edges.append((nodes[parent], nodes[k]))
+    for _ in range(draw(st.integers(0, 2))):
+        a, b = draw(st.sampled_from(nodes)), draw(st.sampled_from(nodes))
+        if a != b:
+            edges.append((a, b))
+    an = analyze(spec)
+    for a, b in edges:
+        if draw(st.booleans()):
+            a, b = b, a
+        kind = draw(st.sampled_from(["conf", "conf", "conf", "sb"]))
+        p = draw(st.sampled_from(["L", "R", "U"])) if prios else "U"
+        rel = ["sb", a, b] if kind == "sb" else ["conf", a, b, p]
+        spec["rels"].append(rel)
+        if not relations_ok(spec):
+            spec["rels"].pop()
+            if kind == "conf":
+                spec["rels"].append(["conf", a, b, "U"])
+                if not relations_ok(spec):
+                    spec["rels"].pop()
+    # conflicts between methods called by different transactions
+    mnames = [f"m{i}" for i in range(nm)]
+    for _ in range(draw(st.integers(0, 2)) if nm >= 2 else 0):
+        a, b = draw(st.sampled_from(mnames)), draw(st.sampled_from(mnames))
+        if a == b or not an.reaching_transactions(a) or not an.reaching_transactions(b):
+            continue
+        if not same_trans and set(an.reaching_transactions(a)) & set(an.reaching_transactions(b)):
+            continue
+        rel = ["conf", a, b, draw(st.sampled_from(["L", "R", "U"])) if prios else "U"]
+        if draw(st.integers(0, 2)) == 0:
+            rel.append("A")
+        spec["rels"].append(rel)
+        if not relations_ok(spec):
+            spec["rels"].pop()
+    spec["nvals"] = None
+    spec["vals"] = []
     return spec
 
 
